@@ -20,7 +20,13 @@ func slashFactors(prev *world.Snap, v int, f *big.Rat) map[string]*big.Rat {
 		}
 		rest := ratSub(S, ratMul(f, sv))
 		if S.Sign() == 0 {
-			out[den] = ratI(1)
+			// no shares at all: nothing staked (g irrelevant), or everything slashed away earlier while the staked total
+			// stayed positive - then position values are not meaningful (degenerate state, see K-C04-fully-slashed-asset)
+			if a.TotalTokens.IsPositive() {
+				out[den] = nil
+			} else {
+				out[den] = ratI(1)
+			}
 			continue
 		}
 		if rest.Sign() <= 0 {
